@@ -28,19 +28,22 @@
 #define MAXH (2 + KK)
 
 static int g_live_pay = 0; static int g_bad = 0; static int g_copies = 0;
+#define MAXSEQ 64
+static int g_live_seq[MAXSEQ];          // live instances per event (uid = the event's sequence number; survives moves, unlike a/b)
+static inline void seq_live(uint32_t uid, int d) { if(uid < MAXSEQ) g_live_seq[uid] += d; }
 struct Pay {
-	uint32_t a, b; uint32_t magic;
-	Pay() : a(0), b(0), magic(0xFEEDu) { ++g_live_pay; }
-	Pay(uint32_t a_, uint32_t b_) : a(a_), b(b_), magic(0xFEEDu) { ++g_live_pay; }
+	uint32_t a, b; uint32_t magic; uint32_t uid;
+	Pay() : a(0), b(0), magic(0xFEEDu), uid(0) { ++g_live_pay; }
+	Pay(uint32_t a_, uint32_t b_) : a(a_), b(b_), magic(0xFEEDu), uid(b_) { ++g_live_pay; seq_live(uid, 1); }
 #if PAYLOAD == 3
 	Pay(const Pay &) = delete; Pay & operator=(const Pay &) = delete;
 #else
-	Pay(const Pay & o) : a(o.a), b(o.b), magic(0xFEEDu) { if(o.magic != 0xFEEDu) ++g_bad; ++g_live_pay; ++g_copies; }
-	Pay & operator=(const Pay & o) { if(o.magic != 0xFEEDu || magic != 0xFEEDu) ++g_bad; a = o.a; b = o.b; return *this; }
+	Pay(const Pay & o) : a(o.a), b(o.b), magic(0xFEEDu), uid(o.uid) { if(o.magic != 0xFEEDu) ++g_bad; ++g_live_pay; ++g_copies; seq_live(uid, 1); }
+	Pay & operator=(const Pay & o) { if(o.magic != 0xFEEDu || magic != 0xFEEDu) ++g_bad; seq_live(uid, -1); a = o.a; b = o.b; uid = o.uid; seq_live(uid, 1); return *this; }
 #endif
-	Pay(Pay && o) noexcept : a(o.a), b(o.b), magic(0xFEEDu) { if(o.magic != 0xFEEDu) ++g_bad; o.a = 0xdead0001u; o.b = 0xdead0002u; ++g_live_pay; }
-	Pay & operator=(Pay && o) noexcept { if(o.magic != 0xFEEDu || magic != 0xFEEDu) ++g_bad; a = o.a; b = o.b; o.a = 0xdead0001u; o.b = 0xdead0002u; return *this; }
-	~Pay() { if(magic != 0xFEEDu) ++g_bad; magic = 0xDEADu; --g_live_pay; }
+	Pay(Pay && o) noexcept : a(o.a), b(o.b), magic(0xFEEDu), uid(o.uid) { if(o.magic != 0xFEEDu) ++g_bad; o.a = 0xdead0001u; o.b = 0xdead0002u; ++g_live_pay; seq_live(uid, 1); }
+	Pay & operator=(Pay && o) noexcept { if(o.magic != 0xFEEDu || magic != 0xFEEDu) ++g_bad; seq_live(uid, -1); a = o.a; b = o.b; uid = o.uid; seq_live(uid, 1); o.a = 0xdead0001u; o.b = 0xdead0002u; return *this; }
+	~Pay() { if(magic != 0xFEEDu) ++g_bad; magic = 0xDEADu; --g_live_pay; seq_live(uid, -1); }
 };
 
 static void on_listener(uint32_t lid, uint32_t a, uint32_t b);
@@ -332,10 +335,11 @@ extern "C" void harness()
 #endif
 		}
 		else if(op == 7) do_take();
-		else if(op == 8) { if(m.np > 0) vf_cover(COV_CLEAR); g->q->clearEvents(); m.np = 0;
+		else if(op == 8) { if(m.np > 0) vf_cover(COV_CLEAR); g->q->clearEvents();
 #if PAYLOAD != 0
-			vf_assert(g_live_pay == 0, 90);           // discarded arguments are released before clearEvents returns
+			for(int i = 0; i < m.np; i++) if(m.p[i].b < MAXSEQ) vf_assert(g_live_seq[m.p[i].b] == 0, 90);   // the arguments of the events it discards are released before clearEvents returns
 #endif
+			m.np = 0;
 		}
 		else if(op <= 10) {
 			int k = (int)op - 9;
@@ -358,7 +362,10 @@ extern "C" void harness()
 		vf_assert(m.depth == 0, 92);
 		vf_assert(g->q->emptyQueue() == (m.np == 0), 93);
 #if PAYLOAD != 0
-		vf_assert(g_live_pay == m.np, 94);            // exactly the pending events' arguments are alive
+		// the pending events' arguments are alive ; WHEN a consumed event's arguments die is only bounded
+		// by the queue's destruction (assertion 96), so nothing is demanded of them here
+		vf_assert(g_live_pay >= m.np, 94);
+		for(int i = 0; i < m.np; i++) if(m.p[i].b < MAXSEQ) vf_assert(g_live_seq[m.p[i].b] >= 1, 100);
 		vf_assert(g_bad == 0, 95);
 #endif
 	}
